@@ -332,6 +332,7 @@ def _judge_path(doc, name, grp, verr, probs, info, deep):
   v = R.captured(doc, name)
   ob = obs_path(grp, deep)
   info["ops"] += 1
+  info["notes"].append(("verdict:path:" + v[0], None))
   if v[0] != "lenient":
     info["nontrivial"] = True
   if ob[0] == "foreign":
@@ -387,6 +388,7 @@ def _judge_set(doc, name, grp, probs, info):
   v = R.induced(doc, name)
   ob = obs_set(grp)
   info["ops"] += 3
+  info["notes"].append(("verdict:set:" + v[0], None))
   for m, r in sorted(ob.items()):
     if r[0] == "foreign":
       probs.append(("foreign-exception", m + "/" + r[1].split(":")[0],
@@ -536,11 +538,15 @@ def plan(tier):
   tasks.append(("Ounres", "base", "fwd", None))
   tasks.append(("Ounres", "base", "rev", None))
   # O with a nested path
-  ngraphs = ["cyc", "par"] if q else list(GRAPHS)
-  for gname in ngraphs:
+  if q:
     for d in o1_defs(tier):
-      tasks.append(("Onest", gname, "fwd", d))
-  if not q:
+      tasks.append(("Onest", "cyc", "fwd", d))
+      if " " not in d:
+        tasks.append(("Onest", "parC", "fwd", d))
+  else:
+    for gname in GRAPHS:
+      for d in o1_defs(tier):
+        tasks.append(("Onest", gname, "fwd", d))
     for d in o1_defs(tier):
       tasks.append(("Onest", "cyc", "rev", d))
   # U
@@ -556,9 +562,9 @@ def plan(tier):
   # multi-line definitions: (item alphabet, tag modes, referrer line present)
   if q:
     mplan = {"O": [(["a+", "o1-"], "all", False),
-                   (["a+", "e2-", "o1-"], "core", True)],
+                   (["a+", "o1-"], "core", True)],
              "U": [(["a", "u0"], "all", False),
-                   (["a", "e1", "u0"], "core", True)]}
+                   (["a", "u0"], "core", True)]}
   else:
     mplan = {"O": [(BASE_ATOMS, "core", False),
                    (["a+", "b+", "e2-", "o1-"], "all", True)],
@@ -630,6 +636,13 @@ def cases_of(task):
       if order == "rev":
         lines = lines[::-1]
       yield (fam, gname, lines, ["p"])
+    for items in lists_upto(["a", "x", "e1", "u0"], 2):
+      if not any(x in ("x", "u0") for x in items):
+        continue
+      lines = graph_lines(gname) + [T(["U", "u", " ".join(items)])]
+      if order == "rev":
+        lines = lines[::-1]
+      yield (fam, gname, lines, ["u"])
   elif fam == "Onest":
     order, d = task[2], task[3]
     atoms = BASE_ATOMS + ["o1+", "o1-"]
